@@ -14,7 +14,7 @@ from vlib.runner import Sub, Violation
 @st.composite
 def cases(draw, tier):
     nmax = 5 if tier == 'thorough' else 4
-    nl = draw(gen.netlists(min_inputs=1, max_inputs=nmax, max_gates=16 if tier == 'thorough' else 12,
+    nl = draw(gen.netlists(min_inputs=0, max_inputs=nmax, max_gates=16 if tier == 'thorough' else 12,
                            max_arity=4, styles=('plain', 'digits', 'mixed'), max_outputs=3, const_operands=(0, 0, 2)))
     return {'nl': nl, 'route': draw(gen.routes(nl)), 'explicit_undefined': draw(st.booleans()),
             # how the assignment reaches the call: as built, or after copy.deepcopy / a pickle round trip (the Undefined
@@ -33,9 +33,11 @@ def check_partial(case):
         # their users); the reference reads its gates and operands back and evaluates them on its own
         from vlib.env import UuidStream
 
-        with UuidStream(7):
-            c.into_bench()
-        nl = refsem.from_circuit(c)
+        if nl['inputs'] or not any(g[1] in refsem.CONST for g in nl['gates']):
+            # (a constant cannot be expressed in the bench basis without an input: that conversion is declined, see C14)
+            with UuidStream(7):
+                c.into_bench()
+            nl = refsem.from_circuit(c)
     n = len(nl['inputs'])
     pats, mask = refsem.full_patterns(n)
     t = refsem.tables(nl)
@@ -270,5 +272,5 @@ SPEC = {
     'subs': [Sub('partial', cases, check_partial, {'quick': 1500, 'thorough': 75000}),
              Sub('dict_reuse', reuse_cases, check_reuse, {'quick': 1500, 'thorough': 50000})],
     'exhaustive': {'operator_tables': operator_tables},
-    'required_classes': {'partial': ['nary>=3', 'LR_gate', 'cmp_gate', 'constant', 'dup_operand', 'dead_gate']},
+    'required_classes': {'partial': ['nary>=3', 'LR_gate', 'cmp_gate', 'constant', 'dup_operand', 'dead_gate', 'zero_inputs']},
 }
